@@ -12,10 +12,26 @@ def setup(chk, tags=""):
     return prog, base
 
 
+def _xs_delta():
+    from sym import xsolve
+    return dict(xsolve.stats)
+
+
+def _xs_merge(chk, d):
+    if not d or not d.get("queries"):
+        return
+    cur = chk.extra.setdefault("cross_solver", {"queries": 0, "z3-4.8.12": {}, "cvc5": {}, "disagreements": []})
+    cur["queries"] += d["queries"]
+    for k in ("z3-4.8.12", "cvc5"):
+        for v, n in d[k].items():
+            cur[k][v] = cur[k].get(v, 0) + n
+    cur["disagreements"].extend(d["disagreements"])
+
+
 def _delta(chk, mark):
     return dict(obs=chk.obs[mark["obs"]:], violations=chk.violations[mark["viol"]:], known=chk.known[mark["known"]:],
                 inconclusive=chk.inconclusive[mark["inc"]:], functions=chk.functions, validated=chk.validated - mark["val"],
-                samples=chk.samples[mark["samples"]:], extra=chk.extra)
+                samples=chk.samples[mark["samples"]:], extra=chk.extra, xs=_xs_delta())
 
 
 def _mark(chk):
@@ -30,7 +46,10 @@ def _apply(chk, d):
     chk.functions.update(d["functions"])
     chk.validated += d["validated"]
     chk.samples.extend(d["samples"])
+    _xs_merge(chk, d.get("xs"))
     for k, v in d.get("extra", {}).items():
+        if k == "cross_solver":
+            continue
         if isinstance(v, dict) and isinstance(chk.extra.get(k, {}), dict):
             chk.extra.setdefault(k, {}).update(v)
         elif k not in chk.extra:
